@@ -26,6 +26,10 @@ func RandomGraph(n int, p float64, seed int64) *DenseGraph {
 //RandomTree returns a tree chosen uniformly at random from all trees on n vertices.
 //This constructs a random Prufer code and converts into a tree.
 func RandomTree(n int, seed int64) *DenseGraph {
+	//There is no Prufer code for the trees on fewer than 2 vertices.
+	if n < 2 {
+		return NewDense(n, nil)
+	}
 	code := make([]int, n-2)
 	r := rand.New(rand.NewSource(seed))
 	for i := 0; i < n-2; i++ {
